@@ -2564,6 +2564,7 @@ class _State(object):
             twin = getattr(doc, 'twin', None)
             if twin is None:
                 twin = _result_to_model(doc.result_root, doc.uri)
+                twin.from_rtf = True
                 doc.twin = twin
             return [twin.root]
         return v
